@@ -363,7 +363,8 @@ func checkErrorContract(e *Entry, s string, res ParseResult) map[string]string {
 	}
 	me, ok := res.Err.(memefish.MultiError)
 	if !ok {
-		return viol // C03
+		viol["C09/error-not-multierror/"+e.Name] = fmt.Sprintf("%s(%q): the non-nil error is a %T, not a MultiError", e.Name, s, res.Err)
+		return viol
 	}
 	if len(me) < bn {
 		viol["C09/fewer-errors-than-bad-nodes/"+e.Name] = fmt.Sprintf("%s(%q): %d errors for %d BadNode placeholders", e.Name, s, len(me), bn)
